@@ -133,10 +133,13 @@ fn gen_mode_name(rng: &mut Rng, hostile: bool, used: &[String]) -> String {
 
 fn directed_patterns(rng: &mut Rng) -> Vec<RefPattern> {
     let pool = ["\"[^\"]*\"", "\\\\", "[\\n]", "é+", "[\\[\\]]", "\\x22", "[\"\\\\]", "\\t", "a|b", "[a-c&&[^b]]", "\\u{2028}", "'"];
+    // verbatim texts (the label shows the class as written): a backslash directly in front of a
+    // quote, escaped punctuation, escapes that end in a backslash
+    let raw_pool = ["\\\"", "\\\"[^\\\"]*\\\"", "\\\\\\\"", "[\\\"\\\\]", "x\\\"y", "\\'", "\\-\\\"", "[^\\\"]", "\\\\\""];
     let n = rng.range(1, 4);
     (0..n)
         .map(|i| RefPattern {
-            re: parse_to_ir(pool[rng.below(pool.len())]).unwrap(),
+            re: if rng.chance(1, 3) { Re::Raw(raw_pool[rng.below(raw_pool.len())].to_string()) } else { parse_to_ir(pool[rng.below(pool.len())]).unwrap() },
             tt: i * 3 + 1,
             la: if rng.chance(1, 3) { Some((rng.chance(1, 2), parse_to_ir(pool[rng.below(pool.len())]).unwrap())) } else { None },
         })
@@ -151,8 +154,11 @@ pub fn c18_case(rng: &mut Rng, i: u64, st: &mut Stats) -> CaseOutcome {
         cfg.modes[0].pats = directed_patterns(rng);
         // keep transitions consistent (sorted, any token types are fine)
     }
-    if !cfg.all_res().iter().all(|r| print_parse_roundtrip_ok(r)) {
+    if !cfg.all_res().iter().all(|r| matches!(r, Re::Raw(_)) || print_parse_roundtrip_ok(r)) {
         return CaseOutcome::Skipped;
+    }
+    if cfg.all_res().iter().any(|r| matches!(r, Re::Raw(_))) {
+        st.count("scanners_with_backslash_quote_patterns");
     }
     let mut used = Vec::new();
     for m in cfg.modes.iter_mut() {
@@ -410,6 +416,7 @@ pub fn c18(tier: Tier) -> i32 {
     .floor("exports_over_existing_larger_files", 500)
     .floor("exports_with_dots_in_prefix_or_mode_name", 500)
     .floor("files_with_escaped_labels", 500)
+    .floor("scanners_with_backslash_quote_patterns", 100)
     .floor("scanners_with_names_needing_escapes", 300)
     .floor("fault_missing_folder_error_returned", 20)
     .floor("fault_folder_is_a_file_error_returned", 20)
